@@ -895,6 +895,20 @@ Lemma source_compares_pinned_lemma :
   vsfind_test = "if(!strcmp(vsname,vs->vsname))HGOTO_DONE((int32)(vs->oref));"%string /\
   vsfindclass_test = "if(!strcmp(vsclass,vs->vsclass))HGOTO_DONE((int32)(vs->oref));"%string.
 Proof. repeat split; reflexivity. Qed.
+(** the statements that decide how long the stored element is: Vdetach invalidates the descriptor of a vgroup that came
+    from the file before it writes, Hstartwrite sizes only a new element, Hwrite refuses to run past an existing one,
+    Load_vfile reads the element with the length of its descriptor, vpackvg reports one byte more than it encodes *)
+Lemma source_store_pinned_lemma :
+  vdetach_reuse =
+    "if(!vg->new_vg){switch(HDcheck_tagref(vg->f,DFTAG_VG,vg->oref)){case0:break;case1:if(HDreuse_tagref(vg->f,DFTAG_VG,vg->oref)==FAIL)HGOTO_ERROR(DFE_INTERNAL,FAIL);break;"%string /\
+  vdetach_put =
+    "if(Hputelement(vg->f,DFTAG_VG,vg->oref,Vgbuf,vgpacksize)==FAIL){HERROR(DFE_WRITEERROR);ret_value=FAIL;}else{vg->marked=0;vg->new_vg=0;}"%string /\
+  hstartwrite_setlength = "if(access_rec->new_elem&&(Hsetlength(ret,length)==FAIL))"%string /\
+  hwrite_bound =
+    "if(length<=0||(!access_rec->appendable&&length+access_rec->posn>data_len))HGOTO_ERROR(DFE_BADSEEK,FAIL);"%string /\
+  vpgetinfo_length = "if((len=Hlength(f,DFTAG_VG,(uint16)ref))==FAIL)"%string /\
+  vpackvg_size = "*size=(int32)(bb-buf)+1;"%string.
+Proof. repeat split; reflexivity. Qed.
 End Layout.
 
 (** a class lookup with an ordinary class name finds exactly the vdatas of that class: no prefix matching *)
@@ -915,4 +929,64 @@ Proof.
       * intro H. exists v. split; [reflexivity|]. split; [congruence|]. subst q. discriminate.
       * intros (v' & E1 & E2 & E3). inversion E1; subst. congruence.
   - split; [discriminate|]. intros (v' & E1 & _). discriminate.
+Qed.
+
+
+(* ================================================================================================== *)
+(** * The element under a vgroup record *)
+
+Lemma put_new : forall b, Hputelement None b = Some b.
+Proof. reflexivity. Qed.
+
+(** writing over an existing element never changes its length: a shorter record leaves the old tail behind *)
+Lemma put_in_place : forall o b, (length b <= length o)%nat ->
+  exists e, Hputelement (Some o) b = Some e /\ length e = length o /\ firstn (length b) e = b /\
+            skipn (length b) e = skipn (length b) o.
+Proof.
+  intros o b L. unfold Hputelement. destruct (Nat.ltb_spec (length o) (length b)); [lia|].
+  eexists. split; [reflexivity|]. split; [|split].
+  - rewrite app_length, skipn_length. lia.
+  - rewrite firstn_app, Nat.sub_diag, firstn_all, firstn_O, app_nil_r. reflexivity.
+  - rewrite skipn_app, Nat.sub_diag, skipn_all. reflexivity.
+Qed.
+
+Lemma put_longer_fails : forall o b, (length o < length b)%nat -> Hputelement (Some o) b = None.
+Proof. intros o b L. unfold Hputelement. destruct (Nat.ltb_spec (length o) (length b)); [reflexivity|lia]. Qed.
+
+(** the size vpackvg reports (Vdetach passes it to Hputelement) *)
+Definition packed_size (g : VGROUP) : nat :=
+  let extra := if (flags g =? 0)%Z then O
+               else (4 + (if (Z.land (flags g) VG_ATTR_SET =? 0)%Z then 0 else 4 + 4 * Z.to_nat (nattrs g)))%nat in
+  (4 * Z.to_nat (nvelt g) + length (cstr (opt_bytes (vgname g))) + length (cstr (opt_bytes (vgclass g))) + 15 + extra)%nat.
+
+Lemma flat_map_enc16_length : forall l, length (flat_map enc16 l) = (2 * length l)%nat.
+Proof. induction l; cbn [flat_map length app]; auto. rewrite app_length, IHl. cbn. lia. Qed.
+
+Lemma flat_map_pairs_length : forall (l : list (Z * Z)),
+  length (flat_map (fun p => enc16 (fst p) ++ enc16 (snd p)) l) = (4 * length l)%nat.
+Proof. induction l; cbn [flat_map length app]; auto. rewrite app_length, IHl. cbn. lia. Qed.
+
+Lemma enc16_length : forall v, length (enc16 v) = 2%nat. Proof. reflexivity. Qed.
+Lemma enc32_length : forall v, length (enc32 v) = 4%nat. Proof. reflexivity. Qed.
+
+Lemma vpackvg_length : forall g, WFpack g -> length (snd (vpackvg g)) = packed_size g.
+Proof.
+  intros g [W Fm Wn Wc X Hf (Na & Nl & Fa) Hno V]. pose proof W as [Lt Lr Hn Hm Hu].
+  assert (NL : forall o, name_wf o -> Z.to_nat (w16 (zlen (cstr (opt_bytes o)))) = length (cstr (opt_bytes o))).
+  { intros o Wo. assert (zlen (cstr (opt_bytes o)) <= 65535).
+    { destruct o as [s0|]; cbn [opt_bytes]; [|cbn; unfold zlen; simpl; lia].
+      destruct (Wo s0 eq_refl) as [A B]. rewrite cstr_id by auto. exact B. }
+    unfold w16. rewrite Z.mod_small by (unfold zlen in *; lia). unfold zlen. apply Nat2Z.id. }
+  unfold vpackvg, packed_size. cbn [snd].
+  rewrite (NL _ Wn), (NL _ Wc), !firstn_all.
+  rewrite !app_length, !flat_map_enc16_length, !firstn_length, Lt, Lr.
+  rewrite !enc16_length.
+  replace (Nat.min (Z.to_nat (nvelt g)) (Z.to_nat (msize g))) with (Z.to_nat (nvelt g)) by lia.
+  destruct (flags g =? 0); [cbn [length]; lia|].
+  rewrite app_length, enc32_length.
+  destruct (Z.land (flags g) VG_ATTR_SET =? 0); [cbn [length]; lia|].
+  rewrite app_length, enc32_length, flat_map_pairs_length, firstn_length.
+  replace (Nat.min (Z.to_nat (nattrs g)) (length (alist g))) with (Z.to_nat (nattrs g))
+    by (rewrite Nl; unfold zlen; lia).
+  cbn [length]. lia.
 Qed.
